@@ -879,7 +879,8 @@ class H2Stream:
         # response.
         input_ = StreamInputs.SEND_HEADERS
         if ((not self.state_machine.client) and
-                is_informational_response(headers)):
+                is_informational_response(
+                    headers, self.config.normalize_outbound_headers)):
             if end_stream:
                 raise ProtocolError(
                     "Cannot set END_STREAM on informational responses."
